@@ -2456,10 +2456,13 @@ class XonshParser(Parser):
         return None
 
     def cmd_name(self) -> Any | None:
-        # cmd_name: NAME | NUMBER | STRING | !']' !')' !'}' OP
+        # cmd_name: NAME | KEYWORD | NUMBER | STRING | !']' !')' !'}' OP
         mark = self._mark()
         if name := self.name():
             return name
+        self._reset(mark)
+        if keyword := self.keyword():
+            return keyword
         self._reset(mark)
         if _number := self.token("NUMBER"):
             return _number
